@@ -4,7 +4,7 @@
 Require Extraction.
 Require Import ExtrOcamlBasic.
 From FQ Require Import Lib.ListX Lib.Mat Model.Types Model.Hardcode Model.Compact Model.Encode Model.Poly
-  Model.Default Model.Masking Model.Score Model.Placement Model.Qr Model.Helpers Model.Svg
+  Model.Default Model.Masking Model.Score Model.Placement Model.Qr Model.Helpers Model.Svg Model.Wasm
   Spec.IsoTable9 Spec.Iso Spec.Gf Spec.Oracles Spec.Penalty.
 Extraction Language OCaml.
 Separate Extraction
@@ -22,6 +22,9 @@ Separate Extraction
   Svg.default Svg.set_margin Svg.set_module_color Svg.set_background_color Svg.add_shape Svg.add_shape_color
   Svg.set_image Svg.set_image_background_color Svg.set_image_background_shape Svg.set_image_size Svg.set_image_gap
   Svg.set_image_position Svg.shape_of_idx Svg.ishape_of_idx Svg.to_str Svg.to_str_panics
+  Wasm.new_options Wasm.set_shape Wasm.set_module_color Wasm.set_margin Wasm.set_background_color Wasm.set_image
+  Wasm.set_image_background_color Wasm.set_image_background_shape Wasm.set_image_size Wasm.set_image_position
+  Wasm.set_ecl Wasm.set_version Wasm.qr_unchecked Wasm.qr_svg_unchecked Wasm.color_to_code
   Iso.iso_decode Iso.iso_min_version Iso.iso_codewords Iso.iso_region_map
   Oracles.oracle_fixed Oracles.oracle_labels Oracles.oracle_format Oracles.oracle_rs Oracles.oracle_data_codewords
   Oracles.oracle_mask Oracles.oracle_mode Oracles.oracle_ec Oracles.vals_of Penalty.oracle_penalty.
